@@ -4,6 +4,7 @@ package main
 
 import (
 	"bufio"
+	"bytes"
 	"encoding/json"
 	"fmt"
 	"os"
@@ -29,6 +30,8 @@ func (o *ndjson) emit(v any) {
 	if err != nil {
 		panic(fmt.Sprintf("ndjson: %v", err))
 	}
+	// TLC's Json module has no null: a nil slice always denotes the empty list in these traces
+	b = bytes.ReplaceAll(b, []byte(":null"), []byte(":[]"))
 	o.w.Write(b)
 	o.w.WriteByte('\n')
 	o.n++
